@@ -302,15 +302,41 @@ def r4(chk, ctx, sp):
         return
     pat = const(fa[0].args[0])
     tree = list(sre_parse.parse(pat))
-    ok = len(tree) == 1 and tree[0][0] in (sre_c.MAX_REPEAT,) and tree[0][1][2][0][0] == sre_c.IN
+
+    def unwrap(seq):
+        seq = list(seq)
+        while len(seq) == 1 and seq[0][0] == sre_c.SUBPATTERN:
+            seq = list(seq[0][1][3])
+        return seq
+
+    alts = [unwrap(a) for a in tree[0][1][1]] if len(tree) == 1 and tree[0][0] == sre_c.BRANCH else [unwrap(tree)]
+    general = alts[-1]
+    ok = len(general) == 1 and general[0][0] in (sre_c.MAX_REPEAT,) and general[0][1][2][0][0] == sre_c.IN
     excluded = set()
     if ok:
-        items = tree[0][1][2][0][1]
+        items = general[0][1][2][0][1]
         neg = items and items[0][0] == sre_c.NEGATE
         excluded = {chr(a) for o, a in items if o == sre_c.LITERAL}
         ok = neg
     chk.ob("C12.R4", "token = maximal run of characters other than $ . [ ]", ok and excluded >= set("$.[]"), "excluded: %s" % sorted(excluded), key="apply_resultpath | token class", where=ar.where(), message="")
-    unquoted = any(isinstance(c, ast.Call) and isinstance(c.func, ast.Attribute) and c.func.attr in ("strip",) and c.args and "'" in str(const(c.args[0])) for q, f in sp.funcs.items() if q.startswith("apply_resultpath") for c in body_nodes(f))
+
+    def bracket_quoted(alt):
+        """[ quote ( captured run without that quote ) quote ]  ->  the quote character, else None"""
+        if len(alt) != 5 or [x[0] for x in alt] != [sre_c.LITERAL, sre_c.LITERAL, sre_c.SUBPATTERN, sre_c.LITERAL, sre_c.LITERAL]:
+            return None
+        if chr(alt[0][1]) != "[" or chr(alt[4][1]) != "]" or alt[1][1] != alt[3][1] or chr(alt[1][1]) not in "'\"":
+            return None
+        inner = list(alt[2][1][3])
+        if len(inner) == 1 and inner[0][0] == sre_c.MAX_REPEAT:
+            x = inner[0][1][2][0]
+            if x[0] == sre_c.NOT_LITERAL and x[1] == alt[1][1]:      # [^q] is parsed as NOT_LITERAL q
+                return chr(alt[1][1])
+            if x[0] == sre_c.IN and x[1] and x[1][0][0] == sre_c.NEGATE and (sre_c.LITERAL, alt[1][1]) in x[1]:
+                return chr(alt[1][1])
+        return None
+
+    stripped_by_regex = {bracket_quoted(a) for a in alts[:-1]} - {None}
+    unquoted = any(isinstance(c, ast.Call) and isinstance(c.func, ast.Attribute) and c.func.attr in ("strip",) and c.args and "'" in str(const(c.args[0])) for q, f in sp.funcs.items() if q.startswith("apply_resultpath") for c in body_nodes(f)) or "'" in stripped_by_regex
     quotes_in_tokens = not ({"'", '"'} <= excluded)
     chk.ob("C12.R4", "bracket-notation keys are unquoted (or quotes cannot be part of a token)", (not quotes_in_tokens) or unquoted, "",
            key="apply_resultpath | quote characters of bracket notation stay in the key", where=ar.where(),
